@@ -9,5 +9,5 @@ use crate::shims::scursor::WriteCursor;
 //@|        r is Ok ==> is_rtu_frame(final(cursor).buf(), final(cursor).pos as int, header.destination.spec_value(), function.spec_value(), msg)
 //@|            && r->Ok_0.pdu_body.start == 2 && r->Ok_0.pdu_body.end == final(cursor).pos - 2,
 //@|        r matches Err(RequestError::Exception(e)) ==> msg.ser_exc(e),
-//@|        r is Err ==> (r->Err_0 is Exception || r->Err_0 is Internal),
+//@|        r is Err ==> (r->Err_0 is Exception || r->Err_0 is Internal || (r->Err_0 is BadRequest && msg.ser_may_reject())),
 //@entry| broadcast use crate::shims::scursor::lemma_subrange_update_outside;
